@@ -338,7 +338,7 @@ func runC08(w *mon.W) {
 	}
 
 	// ---- counting clause
-	nCount := w.Pick(400, 6000)
+	nCount := w.Pick(2000, 12000)
 	for k := 0; k < nCount; k++ {
 		id := fmt.Sprintf("count-%d", k)
 		idx++
@@ -452,7 +452,7 @@ func runC08(w *mon.W) {
 	w.Extra("exhaustive_parts", []string{fmt.Sprintf("all operation sequences of length <= %d over get/re-weight/add/compromise/serialise-parse on table ids %v with 2 coding sequences", depth, ids2)})
 
 	// ---- random histories of length 5..8 on three ids
-	nHist := w.Pick(3000, 100000)
+	nHist := w.Pick(20000, 300000)
 	ids3 := []int{1, 11, 2}
 	for k := 0; k < nHist; k++ {
 		id := fmt.Sprintf("hist-%d", k)
